@@ -98,6 +98,15 @@ static void check_keyset(const TFheGateBootstrappingParameterSet *gb, const std:
     std::string Cf = to_file_bytes([&](FILE *f) { export_tfheGateBootstrappingCloudKeySet_toFile(f, &sk->cloud); });
     std::string S = to_stream_bytes([&](std::ostream &o) { export_tfheGateBootstrappingSecretKeySet_toStream(o, sk); });
     std::string P = to_stream_bytes([&](std::ostream &o) { export_tfheGateBootstrappingParameterSet_toStream(o, gb); });
+    // export histories on the FILE transport: the usual order (secret key file first, then the cloud key file), and the
+    // cloud key again after that; every cloud export must give the same bytes
+    std::string Sf = to_file_bytes([&](FILE *f) { export_tfheGateBootstrappingSecretKeySet_toFile(f, sk); });
+    std::string Cf2 = to_file_bytes([&](FILE *f) { export_tfheGateBootstrappingCloudKeySet_toFile(f, &sk->cloud); });
+    std::string C2 = to_stream_bytes([&](std::ostream &o) { export_tfheGateBootstrappingCloudKeySet_toStream(o, &sk->cloud); });
+    out.evaluations += 3;
+    if (Sf != S) out.viol("cloud:transports-differ:secret-export", J().s("config", cfg).u("stream", S.size()).u("file", Sf.size()));
+    if (Cf2 != C) out.viol("cloud:export-depends-on-history:FILE-after-secret-export", J().s("config", cfg).u("first_export", C.size()).u("after_secret_export", Cf2.size()));
+    if (C2 != C) out.viol("cloud:export-depends-on-history:stream-after-secret-export", J().s("config", cfg).u("first_export", C.size()).u("after_secret_export", C2.size()));
     out.evaluations++;
     if (C != Cf) out.viol("cloud:transports-differ", J().s("config", cfg).u("stream", C.size()).u("file", Cf.size()));
     // exact layout and size
@@ -129,6 +138,7 @@ static void check_keyset(const TFheGateBootstrappingParameterSet *gb, const std:
     // no secret key window anywhere in the cloud bytes
     VH_OP("search:%s", cfg.c_str());
     uint64_t before = windows_searched;
+    if (Cf2 != C) search_key(Cf2, sk->lwe_key->key, n, 43, "lwe-key(in cloud file exported after the secret file)", cfg, stride * 4);
     search_key(C, sk->lwe_key->key, n, 43, "lwe-key", cfg, stride);
     for (int i = 0; i < k; i++) search_key(C, sk->tgsw_key->key[i].coefs, N, i == 0 ? 169 : 85, "ring-key", cfg, stride);
     { std::vector<int32_t> ext(k * N); for (int i = 0; i < k; i++) memcpy(&ext[i * N], sk->tgsw_key->key[i].coefs, 4 * N); search_key(C, ext.data(), k * N, 43, "extracted-key", cfg, stride * 2); }
